@@ -367,8 +367,8 @@ func doCall(ctx context.Context, c *eth2wrap.DutiesCache, w *world, cs *callSt, 
 		rmeta = unMeta(r.Metadata)
 		mut = func() {
 			for i, x := range r.Duties {
-				x.Slot += 1000
-				x.ValidatorIndex += 1000
+				x.Slot += 5000
+				x.ValidatorIndex += 5000
 				x.PubKey[3] ^= 0xff
 				r.Duties[i] = &eth2v1.ProposerDuty{}
 			}
@@ -388,8 +388,8 @@ func doCall(ctx context.Context, c *eth2wrap.DutiesCache, w *world, cs *callSt, 
 		rmeta = unMeta(r.Metadata)
 		mut = func() {
 			for i, x := range r.Duties {
-				x.Slot += 1000
-				x.ValidatorIndex += 1000
+				x.Slot += 5000
+				x.ValidatorIndex += 5000
 				x.CommitteeIndex += 3
 				x.PubKey[3] ^= 0xff
 				r.Duties[i] = &eth2v1.AttesterDuty{}
@@ -411,9 +411,9 @@ func doCall(ctx context.Context, c *eth2wrap.DutiesCache, w *world, cs *callSt, 
 		mut = func() {
 			for i, x := range r.Duties {
 				for j := range x.ValidatorSyncCommitteeIndices {
-					x.ValidatorSyncCommitteeIndices[j] += 1000
+					x.ValidatorSyncCommitteeIndices[j] += 5000
 				}
-				x.ValidatorIndex += 1000
+				x.ValidatorIndex += 5000
 				x.PubKey[3] ^= 0xff
 				r.Duties[i] = &eth2v1.SyncCommitteeDuty{}
 			}
@@ -665,12 +665,12 @@ func subset(r *rand.Rand, nv uint64) []uint64 {
 	return out
 }
 
-func sweep(h *History, next *int, epochs []uint64) {
+func sweep(h *History, next *int, epochs []uint64, kinds []int) {
 	var all []uint64
 	for v := uint64(0); v < h.NV; v++ {
 		all = append(all, v)
 	}
-	for k := 0; k < 3; k++ {
+	for _, k := range kinds {
 		for _, ep := range epochs {
 			h.Script = append(h.Script, Op{Op: "call", C: *next, K: k, Ep: ep, Idxs: all, Mode: "seq"})
 			*next++
@@ -760,7 +760,11 @@ func gen(r *rand.Rand, kind string) History {
 	for _, cid := range held {
 		h.Script = append(h.Script, Op{Op: "release", C: cid})
 	}
-	sweep(&h, &next, epochs)
+	var kinds []int
+	for i := 0; i < nk; i++ {
+		kinds = append(kinds, (k0+i)%3)
+	}
+	sweep(&h, &next, epochs, kinds)
 	return h
 }
 
